@@ -401,7 +401,7 @@ def run(ctx):
     traces += _run_harness_parallel(ctx, binp, slines, d, "shapes", ctx.pick(2, 8))
 
     # ---------------------------------------------------------------- 4. judge the traces
-    all_cases = {}
+    agree = [0, 0]
     nbad = 0
     reported = {}
     distinct = set()
@@ -412,6 +412,13 @@ def run(ctx):
             distinct.add(json.dumps({k: v for k, v in c.items() if k != "id"}, sort_keys=True))
 
         byid = {c["id"]: c for c in cases}
+        for c in cases:
+            if c["kind"] == "plan" and c.get("class") in ("ok", "subwrap", "hdrwrap", "panic"):
+                types = set(l["type"] for l in c["lookups"])
+                if types <= ({5, 6} if c["tab"] == "GSUB" else {7, 8}):
+                    continue        # the model does not know about lookup types
+                agree[0] += 1 if (c["class"] != "ok") == (c["id"] in bad) else 0
+                agree[1] += 1
         for cid in sorted(bad):
             nbad += 1
             case = byid[cid]
@@ -423,6 +430,8 @@ def run(ctx):
             case["_tags"] = [t for (ln, t) in bad[cid] if ln == first_line]
             reported.setdefault(key, []).append(case)
     ctx.log("%d cases rejected in %d signatures" % (nbad, len(reported)))
+    ctx.notes.append("diagnostic: the verdict predicted by the code model (ok / breaks a demand) agrees with the judgement of the "
+                     "real encoder's bytes on %d of %d realised plans (contextual-only variants excluded)" % (agree[0], agree[1]))
     todo = [(key, cs[0]) for key, cs in sorted(reported.items())][:16]
 
     def rep(item):
